@@ -24,12 +24,16 @@ structure DCl where
   insync : Bool := false      -- picture = scaled image except for the pixels whose block `pend` touches
   pw : Nat := 0
   ph : Nat := 0
+  lastBtn : Nat := 0                      -- cl->lastPtrButtons
+  lastPtr : Option (Nat × Nat) := none    -- cl->lastPtrX/Y (coalesced motion, already mapped back)
   deriving Inhabited
 
 structure DState where
   srv : Option Srv := none
   mapped : Bool := false
   cls : List DCl := []
+  defer : Nat := 0                        -- screen->deferPtrUpdateTime
+  owner : Option Nat := none              -- screen->pointerClient
   deriving Inhabited
 
 def fmtOf (s : String) : Option (Fmt × Bool) :=
@@ -224,6 +228,18 @@ def corrRnd (n : Nat) (seed : UInt64) : UInt64 := Id.run do
     h := corrSumStep h fw tw x w
   return h
 
+/-- the coalesced pointer positions the timer delivers, sorted by client id -/
+def flushPtr (cls : List DCl) : List (Nat × Nat × Nat × Nat) :=
+  (List.range 8).filterMap fun id =>
+    match cls.find? (fun d => d.id == id && d.live) with
+    | some d => match d.lastPtr with
+      | some (x, y) => some (id, d.lastBtn, x, y)
+      | none => none
+    | none => none
+
+def fmtPtrEvs (evs : List (Nat × Nat × Nat × Nat)) : String :=
+  s!" {evs.length}" ++ String.join (evs.map fun (id, m, x, y) => s!" {id}:{m},{x},{y}")
+
 def dstep (st : DState) (toks : List String) : DState × List String :=
   let bad : DState × List String := (st, ["bad-op"])
   match st.srv, toks with
@@ -255,7 +271,8 @@ def dstep (st : DState) (toks : List String) : DState × List String :=
         if n = 0 then
           let cls := putCl st.cls { d with live := false }
           let (s2, cls, _, _) := flushAll s1 cls i
-          ({ st with srv := some s2, cls := cls }, [s!"closed {i}"])
+          ({ st with srv := some s2, cls := cls, owner := if st.owner == some i then none else st.owner },
+           [s!"closed {i}"])
         else
           match s1.clients.find? (·.id == i) with
           | none => bad
@@ -371,19 +388,52 @@ def dstep (st : DState) (toks : List String) : DState × List String :=
       | some _, some c => (st, [s!"sfb {i} {hex16 (imgHash s.fmt.bpp (imgOf s c.sw c.sh))}"])
       | _, _ => bad
     | none => bad
-  | some s, ["ptr", i, x, y] =>
-    match nat? i, nat? x, nat? y with
-    | some i, some x, some y =>
+  | some s, "ptr" :: i :: x :: y :: rest =>
+    let mask? : Option Nat := match rest with
+      | [] => some 0
+      | [m] => (nat? m).map (· % 256)
+      | _ => none
+    match nat? i, nat? x, nat? y, mask? with
+    | some i, some x, some y, some mask =>
       match getCl st i, s.clients.find? (·.id == i) with
-      | some _, some c =>
+      | some d, some c =>
         let x := x % 65536
         let y := y % 65536
         let (mx, my) := if isMain s c.sw c.sh then (x, y)
                         else (scaleN x c.sw s.main.w, scaleN y c.sh s.main.h)
-        let (s2, cls, _, _) := flushAll s st.cls i
-        ({ st with srv := some s2, cls := cls }, [s!"ptr {i} {mx} {my}"])
+        let ignored := match st.owner with
+          | some j => j != i
+          | none => false
+        let (d', evs, owner') : DCl × List (Nat × Nat × Nat) × Option Nat :=
+          if ignored then (d, [], st.owner) else
+          let owner' := if mask == 0 then none else some i
+          if mask != d.lastBtn || st.defer == 0 then
+            let pre := match d.lastPtr with
+              | some (lx, ly) => [(d.lastBtn, lx, ly)]
+              | none => []
+            ({ d with lastPtr := none, lastBtn := mask }, pre ++ [(mask, mx, my)], owner')
+          else ({ d with lastPtr := some (mx, my), lastBtn := mask }, [], owner')
+        let (s2, cls, _, _) := flushAll s (putCl st.cls d') i
+        let line := s!"ptr {i} {evs.length}" ++ String.join (evs.map fun (m, a, b) => s!" {m},{a},{b}")
+        ({ st with srv := some s2, cls := cls, owner := owner' }, [line])
       | _, _ => bad
-    | _, _, _ => bad
+    | _, _, _, _ => bad
+  | some s, ["defer", ms] =>
+    -- `defer MS`: set the pointer defer time, MS = 0 flushes what is coalesced
+    match nat? ms with
+    | some ms =>
+      if ms > 10000000 then bad else
+      let doFlush := ms == 0
+      let evs := if doFlush then flushPtr st.cls else []
+      let cls1 := if doFlush then st.cls.map fun d => { d with lastPtr := none } else st.cls
+      let (s2, cls, _, _) := if doFlush then flushAll s cls1 0 else (s, cls1, none, some [])
+      ({ st with srv := some s2, cls := cls, defer := ms }, [s!"defer {ms}" ++ fmtPtrEvs evs])
+    | none => bad
+  | some s, ["ptrflush"] =>
+    let evs := flushPtr st.cls
+    let cls1 := st.cls.map fun d => { d with lastPtr := none }
+    let (s2, cls, _, _) := flushAll s cls1 0
+    ({ st with srv := some s2, cls := cls }, ["ptrflush" ++ fmtPtrEvs evs])
   | some s, ["leave", i] =>
     match nat? i with
     | some i =>
@@ -392,7 +442,7 @@ def dstep (st : DState) (toks : List String) : DState × List String :=
       | some d =>
         let s1 := step s (.leave i)
         let (s2, cls, _, _) := flushAll s1 (putCl st.cls { d with live := false }) i
-        ({ st with srv := some s2, cls := cls }, ["ok"])
+        ({ st with srv := some s2, cls := cls, owner := if st.owner == some i then none else st.owner }, ["ok"])
     | none => bad
   | some _, ["corr", fw, fh, tw, th, x, y, w, h] =>
     match nat? fw, nat? fh, nat? tw, nat? th, nat? x, nat? y, nat? w, nat? h with
